@@ -202,3 +202,46 @@ pub fn load(store: &MemStore) -> Result<HnswIndex, String> {
 pub fn commit_pos(journal: &[Write]) -> Option<usize> {
     journal.iter().position(|w| matches!(w, Write::Meta(_)))
 }
+
+/// Like `flush_journal`, but `hook(call)` runs at the start of every write
+/// closure of `flush_with` (call 0.. = node writes in order, then ids, then
+/// metadata), i.e. after the flush captured its snapshot and while its I/O is
+/// in flight — the window in which the index documents that mutations may
+/// proceed. The purge that follows is not hooked (it runs after the commit).
+pub fn flush_journal_hooked(index: &HnswIndex, now_ms: u64, hook: &dyn Fn(usize)) -> Result<Vec<Write>, String> {
+    let journal: Rc<RefCell<Vec<Write>>> = Rc::new(RefCell::new(Vec::new()));
+    let calls: Rc<RefCell<usize>> = Rc::new(RefCell::new(0));
+    let tick = |calls: &Rc<RefCell<usize>>| {
+        let c = *calls.borrow();
+        *calls.borrow_mut() = c + 1;
+        hook(c);
+    };
+    let (j1, j2, j3, j4) = (journal.clone(), journal.clone(), journal.clone(), journal.clone());
+    let (c1, c2, c3) = (calls.clone(), calls.clone(), calls.clone());
+    vcore::util::now(index.flush_with(
+        now_ms,
+        |id, data| {
+            tick(&c1);
+            j1.borrow_mut().push(Write::Node(id, data));
+            std::future::ready(Ok::<bool, BoxError>(true))
+        },
+        |data| {
+            tick(&c2);
+            j2.borrow_mut().push(Write::Ids(data));
+            std::future::ready(Ok::<(), BoxError>(()))
+        },
+        |data| {
+            tick(&c3);
+            j3.borrow_mut().push(Write::Meta(data));
+            std::future::ready(Ok::<(), BoxError>(()))
+        },
+    ))
+    .map_err(|e| format!("flush_with failed: {e}"))?;
+    vcore::util::now(index.purge_removed_nodes(async |id| {
+        j4.borrow_mut().push(Write::DelNode(id));
+        Ok::<bool, BoxError>(true)
+    }))
+    .map_err(|e| format!("purge_removed_nodes failed: {e}"))?;
+    let out = journal.borrow().clone();
+    Ok(out)
+}
